@@ -170,6 +170,11 @@ def pipeline_cases(repo: str, tucan, tier: str, seed: int):
             cases.append(Case("graph_utils._sort_molecule_by_label", name,
                               f"Tucan.graph_utils._sort_molecule_by_label {env} {G}",
                               lambda g=g: gu._sort_molecule_by_label(g), L.jgraph))
+            # frame probe: after all the calls above the CPython argument objects still equal the literals the Lean side was given
+            # (the extractor's "no mutated parameter" analysis for these functions, incl. node/adjacency iteration orders)
+            cases.append(Case("frame.argument_unchanged", name, f"(Except.ok {G} : Py.M Graph)", lambda g=g: g, L.jgraph))
+            cases.append(Case("frame.argument_unchanged", name + "/canonical", f"(Except.ok {GC} : Py.M Graph)", lambda gc=gc: gc, L.jgraph))
+            cases.append(Case("frame.argument_unchanged", name + "/sorted", f"(Except.ok {MS} : Py.M Graph)", lambda ms=ms: ms, L.jgraph))
     prelude = f"def env : DepEnv := harnessEnv {rec.lean()} []\n"
     imports = ["Generated.Canonicalization", "Generated.Serialization", "Generated.GraphUtils"]
     return imports, prelude, cases
